@@ -106,6 +106,13 @@ class JobScheduler(Entity):
 
         if tick_interval <= 0:
             raise ValueError(f"tick_interval must be > 0, got {tick_interval}")
+        # Simulation time is integer nanoseconds: a positive interval below one
+        # nanosecond truncates to zero, and the scheduler would re-schedule its
+        # tick at the current instant forever (the clock never advances).
+        if Duration.from_seconds(tick_interval).nanoseconds <= 0:
+            raise ValueError(
+                f"tick_interval must be at least one nanosecond, got {tick_interval}"
+            )
 
         self._tick_interval = tick_interval
         self._jobs: dict[str, JobDefinition] = {}
